@@ -9,7 +9,7 @@ A unit template (contracts/<unit>.vrs) is Verus source with directive lines:
     //@ body-start      payload: inserted right after the body '{'   (ghost code only)
     //@ before N <txt>  payload: inserted before the line holding the N-th occurrence of <txt> (ghost only)
     //@ after N <txt>   payload: inserted after the line holding the N-th occurrence of <txt>  (ghost only)
-    //@ loop-end N / before-loop N / after-loop N   payload (ghost only) at the end of the body of / before / after loop N
+    //@ loop-start N / loop-end N / before-loop N / after-loop N   payload (ghost only) at the start / end of the body of, before, after loop N
     //                  (structural anchors: robust against edits of individual statements)
     //@ ret <name>      rewrite `-> T` into `-> (<name>: T)`              (rule R9, names the result)
     //@ rewrite <rule> <count> "<from>" => "<to>"   textual rewrite inside the item, logged (rules R1..R8)
@@ -159,6 +159,21 @@ def process(template_path, repo, vacuity=False, verif_root=None, assume_mode=Fal
             unit.sources |= sub.sources
             i += 1
             continue
+        if s.startswith("//@bytelits "):
+            # mechanically generated facts "the literal b"..." denotes these bytes" (Verus knows only the length)
+            lits = json.loads("[" + s.split(None, 1)[1] + "]")
+            names = []
+            emit("pub mod bytelits { use vstd::prelude::*;", ("spec", trel, i + 1, None))
+            for k, lit in enumerate(lits):
+                nm = "axiom_bytelit_%d_%s" % (k, re.sub(r"[^A-Za-z0-9]", "_", lit))
+                names.append(nm)
+                esc = lit.replace("\\", "\\\\").replace('"', '\\"')
+                emit("pub broadcast axiom fn %s() ensures (#[trigger] b\"%s\"@) == seq![%s];" % (
+                    nm, esc, ", ".join("0x%02Xu8" % b for b in lit.encode("utf-8"))), ("spec", trel, i + 1, None))
+            emit("pub broadcast group group_bytelits { %s } }" % ", ".join(names), ("spec", trel, i + 1, None))
+            emit("pub use bytelits::*; broadcast use group_bytelits;", ("spec", trel, i + 1, None))
+            i += 1
+            continue
         if s.startswith("//@property"):
             unit.properties += s.split()[1:]
             i += 1
@@ -298,7 +313,7 @@ def _extract_item(unit, out, repo, rel, sel, subs, trel, vacuity, assume_mode=Fa
                 repls.append((p, p + len(frm), to, tl, rule, frm))
         elif kw == "fields":
             pass
-        elif kw in ("loop-end", "before-loop", "after-loop"):
+        elif kw in ("loop-end", "before-loop", "after-loop", "loop-start"):
             _lint_ghost(unit, pl, trel, tl)
             if loops is None:
                 loops = rustlex.loops_in(sf, item)
@@ -312,6 +327,8 @@ def _extract_item(unit, out, repo, rel, sel, subs, trel, vacuity, assume_mode=Fa
             if kw == "loop-end":
                 ls = src.rfind("\n", 0, ct[bc].start) + 1
                 edits.append((ls, 3, payload_text(pl) + "\n", tl))
+            elif kw == "loop-start":
+                edits.append((body_off + 1, 2, "\n" + payload_text(pl) + "\n", tl))
             elif kw == "before-loop":
                 ls = src.rfind("\n", 0, kw_off) + 1
                 edits.append((ls, 0, payload_text(pl) + "\n", tl))
